@@ -2,7 +2,7 @@
 configuration of ./check C03 and MANIFEST texts."""
 
 PROP = {'areas': [{'area': 'c03',
-            'corpus': ['corpus/C03/d1_unsuback_143.txt', 'corpus/C03/framing.txt', 'corpus/C03/packets.txt'],
+            'corpus': ['corpus/C03/d1_unsuback_143.txt', 'corpus/C03/d27_nul_in_string.txt', 'corpus/C03/framing.txt', 'corpus/C03/packets.txt'],
             'quick': 70000, 'thorough': 7000000}],
  'coq_target': 'Properties/C03.vo',
  'modelled': 'decode.rs Decoder (decode_bytes, process_read_packet_type / _total_remaining_length / _packet_body, reset), decode_packet5/311, the three ack '
@@ -19,7 +19,7 @@ PROP = {'areas': [{'area': 'c03',
          'random bytes, splices, raw property sections (duplicates, identifiers of other packets, bad booleans / QoS / UTF-8 / lengths), announced sizes above a '
          'small maximum, exact-fit maximum. Both chunkings go to Decoder::decode_bytes through the facade and to the extracted model; packets (text), verdict '
          'kind and failing chunk are compared (tie), monitors on the implementation: decoded packets = generated packets (valid), no panic, same packets / '
-         'verdict / failing byte for both chunkings, oversize rejected no later than the length-completing byte. 13 x 256 reason-code tables of the compiled '
+         'verdict / failing byte for both chunkings, oversize rejected no later than the length-completing byte, no delivered packet has a string field containing U+0000 (MQTT-1.5.4-2, the extracted statement of C03_strings_no_nul; raw property sections draw strings with a zero byte), corpus streams marked REJECT are reported as errors. 13 x 256 reason-code tables of the compiled '
          'code are compared with the model (tie: equal) and with the specification tables (property: every specification code accepted; extra accepted codes noted) on every run. distinct = distinct byte streams; non-trivial = at least 2 bytes'}
 
 META = {'design_ref': 'DESIGN.md section 7 / C03',
@@ -31,7 +31,7 @@ META = {'design_ref': 'DESIGN.md section 7 / C03',
                'effective maximum is rejected by the call that consumes the byte completing the length field with no body byte buffered (C03_size_gate); the '
                "implementation's reason-code tables equal the specification's on all 256 values (C03_reason_codes_*); for UNSUBACK they agree except that the "
                'implementation also accepts 144, a lenient extra (C03_reason_codes_unsuback, _only_144, _spec_accepted); every server-to-client packet kind of MQTT 5 and 3.1.1 produced by the independent specification encoder, in any legal property order and '
-               'any compact form, decodes to exactly its content, also through the framing decoder (C03_faithful_packet, C03_faithful_stream). The model is run against Decoder::decode_bytes on generated valid and malformed streams under '
+               'any compact form, decodes to exactly its content, also through the framing decoder (C03_faithful_packet, C03_faithful_stream); no string field of any packet the decoder returns, for any bytes in any chunking, contains U+0000 (C03_strings_no_nul, C03_strings_no_nul_stream; MQTT-1.5.4-2, defect D27 repaired). The model is run against Decoder::decode_bytes on generated valid and malformed streams under '
                'random chunkings on every check.',
  'technique': 'machine-checked proof in Coq (induction over byte streams / property lists; exhaustive 256-value tables by vm_compute) + differential '
               'correspondence of the extracted model with the implementation, specification-side generation'}
